@@ -170,7 +170,7 @@ def oracle(case, io, mo):
     last = {}
     queued = []
     put_fault = False        # sticky: a PUT fault was injected at some point
-    get_fault = False        # a GET fault is armed
+    s3logs = [a for a in io["aux"] if a.startswith("#s3log")]   # one per step: the stub's request log
     for i, op in enumerate(case[2]):
         if i >= len(obs):
             fails.append(("driver-died", "step %d" % i)); break
@@ -178,7 +178,6 @@ def oracle(case, io, mo):
         if op[0] == "fault":
             if op[1] == "put":
                 put_fault = True
-            get_fault = op[1] == "get" or (get_fault and op[1] != "clear")
         if dump.startswith("D POISONED"):
             # the failed upload was reported by a panic, but it happened with the snapshot queue locked: the lock is poisoned
             fails.append(("node-wedged-after-reported-upload-failure", "after step %d a lock of the node is poisoned: every later snapshot panics" % i))
@@ -188,7 +187,8 @@ def oracle(case, io, mo):
                 queued = []
                 continue
             if op[0] == "restart":
-                fails.append(("restart-panics" + ("-on-download-fault" if get_fault else ""), "step %d: load_all_dbs panicked" % i))
+                denied = i < len(s3logs) and re.search(r"GET#\d+ \S+ DENIED", s3logs[i]) is not None
+                fails.append(("restart-panics" + ("-on-download-fault" if denied else ""), "step %d: load_all_dbs panicked" % i))
                 break
             fails.append(("panic", "step %d: %s" % (i, line_of(op) or op[0])))
         if op[0] == "cmd":
@@ -209,7 +209,6 @@ def oracle(case, io, mo):
                     last[db] = ds
             queued = []
         elif op[0] == "restart":
-            get_fault = False
             queued = []
             silent = strat == "s3" and put_fault
             for db, want in last.items():
